@@ -83,7 +83,7 @@ impl Sem for I64Sem {
             "add" => chk(w, a + b),
             "sub" => chk(w, a - b),
             "mul" => chk(w, a * b),
-            "div" => if b == 0 { Err(Stop::Err("division by zero")) } else { chk(w, a / b) },
+            "div" => if b == 0 { Err(Stop::Err("division by zero")) } else { if a % b != 0 { self.flags.inexact_div.set(true); } chk(w, a / b) },
             "mod" => if b == 0 { Err(Stop::Err("remainder by zero")) } else { Ok(a % b) },
             "pow" => if b < 0 || b > max_exp(w) { Err(Stop::Unspec("PowExponentOutOfRange")) } else { pow_chk(w, a, b) },
             "and" => Ok(a & b),
